@@ -157,7 +157,8 @@ pub fn run(rep: &'static Report) {
     rep.set("evaluations", total_sched + restored_checked);
     rep.set("schedules", total_sched);
     rep.set("restoration_checks", restored_checked);
-    rep.set("distinct_nontrivial", per.iter().filter(|p| p["distinct_quiescent_states"].as_u64().unwrap_or(0) >= 2).count() as u64);
+    // explorations (scenario × placement) in which schedules other than the default one were executed
+    rep.set("distinct_nontrivial", per.iter().filter(|p| p["schedules"].as_u64().unwrap_or(0) >= 2).count() as u64);
     rep.set("traces_validated_against_impl", total_sched);
     rep.set("per_scenario", json!(per));
     rep.set("exhaustive", true);
